@@ -82,13 +82,9 @@ def _class_for(vec):
 
 
 def _declared_classes():
-    from quantity import Quantity
-
-    def rec(c):
-        for s in c.__subclasses__():
-            yield s
-            yield from rec(s)
-    return list(rec(Quantity))
+    """the registered quantity classes (class registry of the library, flattened)"""
+    from quantity import Quantity, QuantityMeta
+    return [c for bucket in QuantityMeta._registry._item_list for c in bucket if c is not Quantity]
 
 
 def _combine(v1, v2, sign):
